@@ -124,9 +124,9 @@ def rare(time, xlab, dx, p_cj, d_cj, gam, u_piston):
 
         # residual q's
         ur = u_piston
-        pr = p_cj * (1 + gamm1 * (u - u_cj) / (2.0 * c_cj))**(2.0 * gam / gamm1)
-        cr = c_cj * (1 + gamm1 * (u - u_cj) / (2.0 * c_cj))
-        rhor = rho_cj * (p / p_cj)**(1.0 / gam)
+        pr = p_cj * (1 + gamm1 * (ur - u_cj) / (2.0 * c_cj))**(2.0 * gam / gamm1)
+        cr = c_cj * (1 + gamm1 * (ur - u_cj) / (2.0 * c_cj))
+        rhor = rho_cj * (pr / p_cj)**(1.0 / gam)
 
         # avg q's
         u = ur + (u - ur) * 2.0 * h / dx
